@@ -546,3 +546,57 @@ Proof.
   - cbn [wseq]. now rewrite <- !app_assoc.
   - cbn [wseq]. destruct (w_cid_suffix c s2 d) as [[o3 s3] tr3]. now rewrite !app_nil_r, <- !app_assoc.
 Qed.
+
+(* ---------------------------------------------------------------- the budget in closed form *)
+(* frames of one real size z (e.g. all sequence numbers below 64): the count in closed form *)
+Lemma fit_uniform cap z : 0 < z <= cap -> forall szs rm, Forall (fun x => x = z) szs ->
+  fst (fit cap rm szs) = Z.min (Zlen szs) (if rm <? cap then 0 else (rm - cap) / z + 1).
+Proof.
+  intros Hz. induction szs as [|x t IH]; intros rm F; cbn [fit].
+  - clear F. cbn [fst]. change (Zlen (@nil Z)) with 0. destruct (rm <? cap) eqn:E; cbv iota; [reflexivity|].
+    assert (0 <= (rm - cap) / z) by (apply Z.div_pos; lia). lia.
+  - inversion F as [|? ? Hx Ht]; subst. rewrite zlen_cons. pose proof (zlen_nonneg t) as Nt.
+    destruct (rm <? cap) eqn:E; cbn [fst]; cbv iota; [lia|].
+    specialize (IH (rm - z) Ht). destruct (fit cap (rm - z) t) as [n r]. cbn [fst] in *. rewrite IH.
+    destruct (rm - z <? cap) eqn:E2; cbv iota.
+    + assert ((rm - cap) / z = 0) by (apply Z.div_small; lia). lia.
+    + replace (rm - cap) with ((rm - z - cap) + 1 * z) by lia. rewrite Z.div_add by lia. lia.
+Qed.
+
+Lemma fit_uniform_room cap z : forall szs rm, Forall (fun x => x = z) szs ->
+  snd (fit cap rm szs) = rm - z * fst (fit cap rm szs).
+Proof.
+  induction szs as [|x t IH]; intros rm F; cbn [fit]; [cbn [fst snd]; lia|].
+  inversion F as [|? ? Hx Ht]; subst. destruct (rm <? cap); [cbn [fst snd]; lia|].
+  specialize (IH (rm - z) Ht). destruct (fit cap (rm - z) t) as [n r]. cbn [fst snd] in *. lia.
+Qed.
+
+Lemma vsz_small q : 0 <= q < 64 -> vsz q = 1.
+Proof. intros H. unfold vsz, Varint.size_uint_var. destruct (q <=? 63) eqn:E; [reflexivity|lia]. Qed.
+
+(* the budget in closed form when every owed sequence number is below 64 (one-byte varints): NEW_CONNECTION_ID frames
+   take 20 + len(cid) bytes, RETIRE_CONNECTION_ID frames 2 *)
+Lemma cid_budget_small_seqs rm cl news rets : 0 <= cl <= CONNECTION_ID_MAX_SIZE ->
+  Forall (fun q => 0 <= q < 64) news -> Forall (fun q => 0 <= q < 64) rets ->
+  let n1 := Z.min (Zlen news) (if rm <? 54 then 0 else (rm - 54) / (20 + cl) + 1) in
+  let r1 := rm - (20 + cl) * n1 in
+  cid_budget rm cl news rets =
+    if n1 <? Zlen news then n1 else n1 + Z.min (Zlen rets) (if r1 <? 9 then 0 else (r1 - 9) / 2 + 1).
+Proof.
+  intros Hcl Fn Fr. cbv zeta. unfold cid_budget.
+  assert (F1 : Forall (fun x => x = 20 + cl) (map (ncid_size cl) news)).
+  { apply Forall_forall. intros x Hx. apply in_map_iff in Hx. destruct Hx as [q [<- Hq]].
+    rewrite Forall_forall in Fn. unfold ncid_size. rewrite (vsz_small q (Fn q Hq)).
+    unfold W_new_connection_id_frame_retire_prior_to, STATELESS_RESET_TOKEN_SIZE. rewrite (vsz_small 0) by lia. lia. }
+  assert (F2 : Forall (fun x => x = 2) (map ret_size rets)).
+  { apply Forall_forall. intros x Hx. apply in_map_iff in Hx. destruct Hx as [q [<- Hq]].
+    rewrite Forall_forall in Fr. unfold ret_size. rewrite (vsz_small q (Fr q Hq)). lia. }
+  change W_new_connection_id_frame_0_cap with 54. change W_retire_connection_id_frame_0_cap with 9.
+  pose proof (fit_uniform 54 (20 + cl)) as U1. pose proof (fit_uniform_room 54 (20 + cl) _ rm F1) as R1.
+  unfold CONNECTION_ID_MAX_SIZE in Hcl.
+  specialize (U1 ltac:(lia) _ rm F1). rewrite zlen_map in U1.
+  destruct (fit 54 rm (map (ncid_size cl) news)) as [n1 r1]. cbn [fst snd] in *. subst n1 r1.
+  match goal with |- (if ?c then _ else _) = _ => destruct c; [reflexivity|] end.
+  f_equal. pose proof (fit_uniform 9 2 ltac:(lia) _ (rm - (20 + cl) * Z.min (Zlen news) (if rm <? 54 then 0 else (rm - 54) / (20 + cl) + 1)) F2) as U2.
+  rewrite zlen_map in U2. exact U2.
+Qed.
